@@ -44,6 +44,7 @@ func baseCtx() pongo2.Context {
 		"m":     map[string]any{"k": "mk"},
 		"fn":    func() string { return "fr" },
 		"pair":  func(a, b *pongo2.Value) *pongo2.Value { return pongo2.AsSafeValue(a.String() + "/" + b.String()) },
+		"svals": []string{"ab cd", "Zz", ""}, "nvals": []int{5, 0},
 		"items": []string{"i0", "i1", "i2", "i3", "i4", "i5", "i6", "i7", "i8", "i9", "i10", "i11"},
 	}
 }
@@ -61,6 +62,10 @@ func valueOf(sp string, ctx pongo2.Context) any {
 		return n
 	}
 	switch sp {
+	case `[s, "x"]`: // a list written in the template is a list of values
+		return []*pongo2.Value{pongo2.AsValue(ctx["s"]), pongo2.AsValue("x")}
+	case `[n, two]`:
+		return []*pongo2.Value{pongo2.AsValue(ctx["n"]), pongo2.AsValue(ctx["two"])}
 	case "m.k":
 		return "mk"
 	case "fn()":
@@ -152,6 +157,28 @@ func (c *Case) Exec(t *eng.T) {
 		src = "{% macro mm(p) %}<{{ p }}>{% endmacro %}{{ mm(" + expr + ") }}"
 		if oerr == nil {
 			want = "<" + printed(res) + ">"
+		}
+	case "reeval":
+		// the same written expression evaluated once per loop pass with OTHER values of the names it uses
+		src = "{% for s in svals %}{% for n in nvals %}{{ " + expr + " }};{% endfor %}{% endfor %}"
+		if oerr == nil {
+			var b strings.Builder
+			for _, sv := range ctx["svals"].([]string) {
+				for _, nv := range ctx["nvals"].([]int) {
+					c2 := pongo2.Context{}
+					for k, v := range ctx {
+						c2[k] = v
+					}
+					c2["s"], c2["n"] = sv, nv
+					r2, e2 := c.compose(c2, valueOf(c.Input, c2))
+					if e2 != nil {
+						oerr = e2
+						break
+					}
+					b.WriteString(printed(r2) + ";")
+				}
+			}
+			want = b.String()
 		}
 	case "macro-arg-first":
 		// the filtered expression is followed by further elements of a comma-separated list
@@ -257,6 +284,58 @@ func (c *Case) Exec(t *eng.T) {
 	}
 	if out.S != want {
 		t.Fail(key+":value", "%s renders %q; composing ApplyFilter in written order gives %q", src, out.S, want)
+	}
+}
+
+// ---- the filter tag entered again while its body is still being rendered ----
+
+type ReentrantCase struct {
+	Chain string `json:"chain"` // filter chain of the tag
+	Depth int    `json:"depth"`
+}
+
+func (c *ReentrantCase) ID() string {
+	return fmt.Sprintf("re-entrant filter tag %s depth %d", c.Chain, c.Depth)
+}
+
+func (c *ReentrantCase) Exec(t *eng.T) {
+	t.Nontrivial()
+	src := "{% autoescape off %}{% macro node(n) %}{% filter " + c.Chain + " %}<node{{ n }}{% if n > 0 %} {{ node(n - 1) }}{% endif %}>{% endfilter %}{% endmacro %}{{ node(" + fmt.Sprint(c.Depth) + ") }}{% endautoescape %}"
+	// reference: apply the chain to the body from the innermost call outwards, through the public ApplyFilter
+	apply := func(body string) (string, bool) {
+		v := pongo2.AsValue(body)
+		for _, f := range strings.Split(c.Chain, "|") {
+			name, arg, hasArg := strings.Cut(f, ":")
+			var p *pongo2.Value
+			if hasArg {
+				u, _ := strconv.Unquote(arg)
+				p = pongo2.AsValue(u)
+			}
+			var err *pongo2.Error
+			v, err = pongo2.ApplyFilter(name, v, p)
+			if err != nil {
+				return "", false
+			}
+		}
+		return v.String(), true
+	}
+	inner := ""
+	for n := 0; n <= c.Depth; n++ {
+		body := fmt.Sprintf("<node%d", n)
+		if n > 0 {
+			body += " " + inner
+		}
+		body += ">"
+		var ok bool
+		if inner, ok = apply(body); !ok {
+			t.Skip()
+			return
+		}
+	}
+	out := px.Render(nil, src, nil)
+	t.Outcome(out.String())
+	if out.Failed() || out.S != inner {
+		t.Fail("filter-tag:re-entrant", "%s renders %s; applying the chain to each rendered body from the inside out gives %q", src, out, inner)
 	}
 }
 
@@ -390,8 +469,8 @@ func run(r *eng.Runner) {
 			calls = append(calls, FC{Name: f.name, Arg: a}) // a == "" : written without parameter
 		}
 	}
-	inputs := []string{"s", "l", "n", "e", "missing", `"Lit q"`, "7", "m.k", "fn()", `"12.34"`, "1"}
-	positions := []string{"output", "if", "for", "with", "set", "macro-arg", "macro-default", "filter-tag", "scoped-arg", "subscript", "binds-tighter", "with-sibling", "with-sibling-old", "macro-arg-first", "call-arg-first", "array-item-first"}
+	inputs := []string{"s", "l", "n", "e", "missing", `"Lit q"`, "7", "m.k", "fn()", `"12.34"`, "1", `[s, "x"]`, `[n, two]`}
+	positions := []string{"output", "if", "for", "with", "set", "macro-arg", "macro-default", "filter-tag", "scoped-arg", "subscript", "binds-tighter", "with-sibling", "with-sibling-old", "macro-arg-first", "call-arg-first", "array-item-first", "reeval"}
 	maxLen := 3
 	if !r.Quick() {
 		maxLen = 4
@@ -461,6 +540,13 @@ func run(r *eng.Runner) {
 		r.Do(&unk[i])
 	}
 
+	r.Group("filter-tag-reentrant", "c19.reentrant", "a recursive macro whose body is wrapped in a filter tag (the tag is entered again while its own body is being rendered), depths 0..4 x 6 chains")
+	for _, ch := range []string{"upper", "lower|capfirst", `cut:"e"`, "length", `upper|cut:"N"`, "title"} {
+		for d := 0; d <= 4; d++ {
+			r.Do(&ReentrantCase{Chain: ch, Depth: d})
+		}
+	}
+
 	r.Group("registry-consistency", "c19.consist", fmt.Sprintf("every documented built-in filter name (%d, aliases included) and 6 unregistered names: FilterExists, use in {{ v|name }}, use in the filter tag, the registry listing and a second registration agree", len(builtinFilterNames)))
 	for _, n := range builtinFilterNames {
 		r.Do(&ConsistCase{Name: n, Builtin: true})
@@ -481,6 +567,7 @@ func run(r *eng.Runner) {
 func init() {
 	eng.RegisterCase("c19.case", func() eng.Case { return &Case{} })
 	eng.RegisterCase("c19.unknown", func() eng.Case { return &UnknownCase{} })
+	eng.RegisterCase("c19.reentrant", func() eng.Case { return &ReentrantCase{} })
 	eng.RegisterCase("c19.reg", func() eng.Case { return &RegCase{} })
 	eng.RegisterCase("c19.consist", func() eng.Case { return &ConsistCase{} })
 	eng.Register(&eng.Check{
